@@ -24,7 +24,7 @@ func init() {
 		Rule: "bounded-exhaustive input enumeration on the real connection loop with a logged-in observer: handshake variants (valid, each significant byte flipped, other versions, every truncation) x " +
 			"first transaction (login or any of the registered types, with/without credential fields) x (login, password) alphabets x account databases x banned/not banned x one or two appended transactions " +
 			"from the request corpus; distinct = distinct (logged-in?, bytes-received class, world-changed?) observations per family",
-		Assumptions: []string{"reference decision uses bcrypt on the harness's own account table", "credential alphabets are small (7 logins x 8 passwords); appended transactions from a 60-request corpus, at most two"},
+		Assumptions:    []string{"reference decision uses bcrypt on the harness's own account table", "credential alphabets are small (7 logins x 8 passwords); appended transactions from a 60-request corpus, at most two"},
 		Run:            runC04,
 		Replay:         replayC04,
 		MinOutcomes:    6,
@@ -34,17 +34,18 @@ func init() {
 }
 
 type c04Case struct {
-	DB       int    `json:"db"`        // 0 guest+admin+obs, 1 no guest, 2 guest with password
-	HS       []byte `json:"hs"`        // handshake bytes sent
-	FirstTyp uint16 `json:"first"`     // type of the first transaction
-	NoCreds  bool   `json:"nocreds"`   // first transaction carries no login/password fields
-	Login    string `json:"login"`     // as typed (obfuscated on the wire)
-	Pw       string `json:"pw"`        // as typed
-	RawPw    []byte `json:"rawpw"`     // if set: raw password field bytes (not obfuscated)
-	Appended []int  `json:"appended"`  // indices into c05Kinds
-	OneSeg   bool   `json:"oneseg"`    // everything in one TCP segment
-	Banned   int    `json:"banned"`    // 0 no, 1 permanent, 2 temporary (future)
-	Style15  bool   `json:"style15"`   // login carries a version field and no name
+	DB         int    `json:"db"`         // 0 guest+admin+obs, 1 no guest, 2 guest with password
+	HS         []byte `json:"hs"`         // handshake bytes sent
+	FirstTyp   uint16 `json:"first"`      // type of the first transaction
+	NoCreds    bool   `json:"nocreds"`    // first transaction carries no login/password fields
+	Login      string `json:"login"`      // as typed (obfuscated on the wire)
+	Pw         string `json:"pw"`         // as typed
+	RawPw      []byte `json:"rawpw"`      // if set: raw password field bytes (not obfuscated)
+	Appended   []int  `json:"appended"`   // indices into c05Kinds
+	OneSeg     bool   `json:"oneseg"`     // everything in one TCP segment
+	Banned     int    `json:"banned"`     // 0 no, 1 permanent, 2 temporary (future)
+	Style15    bool   `json:"style15"`    // login carries a version field and no name
+	Interleave int    `json:"interleave"` // >0: the handshake is sent as Interleave + rest bytes with another peer's valid handshake in between
 }
 
 var c04DBs = [][]world.Acct{
@@ -103,6 +104,10 @@ func c04Expect(c c04Case) (validHS, loggedIn bool) {
 }
 
 func c04Run(w *explore.Worker, c c04Case) {
+	if c.Interleave > 0 {
+		c04Interleaved(w, c.Interleave)
+		return
+	}
 	fail := func(clause, detail string) {
 		w.Violation("C04/"+clause, fmt.Sprintf("case %s: %s", js(c), detail), len(c.Appended)+len(c.HS)%12, c)
 	}
@@ -427,7 +432,56 @@ func c04Race(order int) func() explore.SchedOutcome {
 	}
 }
 
+// c04Interleaved: a peer sends the first k bytes of its (invalid) handshake, another peer connects and
+// sends a valid one, then the first peer sends the remaining 12-k bytes - which are the tail of a valid
+// handshake - and a guest login. Its handshake is still the invalid one it sent: it is not served.
+func c04Interleaved(w *explore.Worker, only int) {
+	for k := 1; k < 12; k++ {
+		if only > 0 && k != only {
+			continue
+		}
+		c := c04Case{DB: 0, Login: "guest", FirstTyp: ref.TLogin, Interleave: k}
+		c.HS = append(bytes.Repeat([]byte{'X'}, k), ref.Handshake()[k:]...)
+		w.Eval()
+		seqChecked(w, "C04", "interleaved", c, func() {
+			wd := world.New(world.Cfg{Board: "board-secret text\r", Accounts: c04DBs[0]})
+			defer wd.Close()
+			obs, r := wd.Connect("10.0.0.3:1003", "obs", "op", "obs")
+			if r == nil || r.Err != 0 {
+				w.Broken("C04 interleaved: observer login failed")
+				return
+			}
+			before := len(wd.UserList(obs))
+			obs.New()
+			b := wd.Dial("10.0.0.66:6666")
+			b.Conn.Feed(c.HS[:k])
+			world.Settle(time.Second)
+			a := wd.Dial("10.0.0.5:1005")
+			a.Handshake()
+			world.Settle(time.Second)
+			b.Conn.Feed(c.HS[k:])
+			id := b.Login123("", "", "intruder", 1)
+			world.Settle(5 * time.Second)
+			b.Poll()
+			if r := b.Reply(id); r != nil && r.Err == 0 {
+				w.Violation("C04/logged-in-without-valid-handshake", fmt.Sprintf("a peer whose 12 handshake bytes were %q (sent as %d + %d bytes, with another peer's valid handshake arriving in between) was logged in", c.HS, k, 12-k), k, c)
+			}
+			if bytes.Equal(b.Greeting, ref.HandshakeReply()) {
+				w.Violation("C04/invalid-handshake-answered-as-valid", fmt.Sprintf("handshake bytes %q sent as %d + %d bytes around another peer's handshake: answered %x", c.HS, k, 12-k, b.Greeting), k, c)
+			}
+			if n := len(wd.UserList(obs)); n != before {
+				w.Violation("C04/user-list-changed-by-unauthenticated-peer", fmt.Sprintf("%d users before, %d after", before, n), k, c)
+			}
+			_ = a
+			w.Outcome(fmt.Sprintf("interleaved %d greeting=%x", k, b.Greeting))
+		})
+	}
+}
+
 func runC04(w *explore.Worker) {
+	if w.Mine(2) {
+		c04Interleaved(w, 0)
+	}
 	bound := 2
 	if w.Thorough {
 		bound = 3
